@@ -158,9 +158,13 @@ func isFlagStore(in ssa.Instruction) (ssa.Value, bool) {
 		return nil, false
 	}
 	if b, ok := constBool(s.Val); ok && b {
-		switch s.Addr.(type) {
+		switch a := s.Addr.(type) {
 		case *ssa.Alloc, *ssa.FreeVar:
 			return s.Addr, true
+		case *ssa.FieldAddr:
+			if fieldVarOf(a) != nil {
+				return s.Addr, true
+			}
 		}
 	}
 	return nil, false
@@ -378,7 +382,7 @@ func (c *Ctx) RuleErr() (drop, handle *Result) {
 	for i, ob := range drop.Obls {
 		c.errDropKey[dropSites[i]] = ob.Key
 		if ob.Verdict == Violated {
-			if _, ex := c.Exemptions[ob.Key]; ex {
+			if _, ex := c.ExemptReason(ob.Rule, ob.Key); ex {
 				ob.Verdict = Exempt
 			}
 			c.errVerdicts[dropSites[i]] = ob
@@ -386,7 +390,7 @@ func (c *Ctx) RuleErr() (drop, handle *Result) {
 	}
 	for i, ob := range handle.Obls {
 		c.errHandleKey[handleSites[i]] = ob.Key
-		if _, ex := c.Exemptions[ob.Key]; ex && ob.Verdict == Violated {
+		if _, ex := c.ExemptReason(ob.Rule, ob.Key); ex && ob.Verdict == Violated {
 			ob.Verdict = Exempt
 		}
 		c.errVerdicts[handleSites[i]] = ob
@@ -520,6 +524,85 @@ func (c *Ctx) RuleErrFlags() *Result {
 				return
 			}
 			res.ok(key, c.P.Pos(al.Pos()), "flag is latched (the callback only ever sets it to true), read back after the walk, and its true side fails")
+		})
+	}
+	// failure flags kept in a struct field (a walk callback turned into a method)
+	seenField := map[*types.Var]bool{}
+	for _, fn := range c.P.RepoFns {
+		allInstrs(fn, func(in ssa.Instruction) {
+			fa, ok := in.(*ssa.FieldAddr)
+			if !ok {
+				return
+			}
+			f := fieldVarOf(fa)
+			if f == nil || seenField[f] {
+				return
+			}
+			if bt, isB := f.Type().Underlying().(*types.Basic); !isB || bt.Kind() != types.Bool {
+				return
+			}
+			if pk, _ := namedOf(fa.X.Type()); !load.InModule(pk) {
+				return
+			}
+			seenField[f] = true
+			stores, loads := c.fieldAccesses(f)
+			if len(stores) == 0 || len(loads) == 0 {
+				return
+			}
+			// a verdict: some load guards a failing side whose other side can succeed
+			verdict := false
+			for _, ld := range loads {
+				for _, br := range condBranches(ld) {
+					blk := br.iff.Block()
+					succ := 0
+					if br.neg {
+						succ = 1
+					}
+					fails, succeeds := false, false
+					for si, t := range blk.Succs {
+						env := newEnvAt(blk)
+						env.enter(t, blk)
+						c.explore(t, 0, env, exploreCB{
+							ret: func(r *ssa.Return, e *pathEnv) {
+								op := retErrOperand(r)
+								if op == nil {
+									return
+								}
+								if si == succ && e.nilnessOf(op) == nonNil {
+									fails = true
+								}
+								if si != succ && e.nilnessOf(op) == isNil {
+									succeeds = true
+								}
+							},
+						})
+					}
+					if fails && succeeds {
+						verdict = true
+					}
+				}
+			}
+			if !verdict {
+				return
+			}
+			res.Instances++
+			_, tn := namedOf(fa.X.Type())
+			key := fmt.Sprintf("%s.%s:flag field", tn, f.Name())
+			latched := true
+			for _, st := range stores {
+				// stores in the function that builds the object (composite literal) are initialisation
+				if _, isAlloc := st.Addr.(*ssa.FieldAddr).X.(*ssa.Alloc); isAlloc {
+					continue
+				}
+				if bv, isC := constBool(st.Val); !isC || !bv {
+					latched = false
+				}
+			}
+			if latched {
+				res.ok(key, c.P.Pos(f.Pos()), "flag field is latched (only ever set to true after construction), read back, and its true side fails")
+			} else {
+				res.bad(key, c.P.Pos(f.Pos()), "the failure flag "+f.Name()+" is assigned a computed value (or reset) per item: a later success overwrites an earlier failure")
+			}
 		})
 	}
 	return res
@@ -720,6 +803,30 @@ func typesSigOf(fn *ssa.Function) *types.Signature { return fn.Signature }
 // the flag's weaker, documented meaning applies: compare --all in text mode).
 func (c *Ctx) flagCounts(addr ssa.Value, store ssa.Instruction) bool {
 	fn := store.Block().Parent()
+	isErrKindF := func(cond ssa.Value, val bool) bool {
+		call, ok := cond.(*ssa.Call)
+		if !ok || !val {
+			return false
+		}
+		f := staticCallee(&call.Call)
+		return isFn(f, "errors", "Is") || isFn(f, "errors", "As")
+	}
+	if fa, ok := addr.(*ssa.FieldAddr); ok {
+		f := fieldVarOf(fa)
+		if f == nil {
+			return false
+		}
+		if c.fieldStrong == nil {
+			c.fieldStrong = map[*types.Var]bool{}
+			c.fieldKnown = map[*types.Var]bool{}
+		}
+		if !c.fieldKnown[f] {
+			c.fieldKnown[f] = true
+			_, loads := c.fieldAccesses(f)
+			c.fieldStrong[f] = c.strongFlagLoads(loads)
+		}
+		return c.fieldStrong[f] || c.guardedByEdges(store, isErrKindF)
+	}
 	al := allocOf(addr, fn)
 	if al == nil {
 		return false
@@ -827,4 +934,68 @@ func conjunctAbout(b *ssa.BasicBlock, call *ssa.Call, aliases []ssa.Value) bool 
 
 func instrInEntryBlock(in ssa.Instruction) bool {
 	return in.Block() == in.Block().Parent().Blocks[0]
+}
+
+// fieldVarOf returns the struct field a FieldAddr addresses.
+func fieldVarOf(fa *ssa.FieldAddr) *types.Var {
+	st, ok := derefType(fa.X.Type()).Underlying().(*types.Struct)
+	if !ok {
+		return nil
+	}
+	return st.Field(fa.Field)
+}
+
+// fieldAccesses collects, over the repository, the stores to and loads of a struct field.
+func (c *Ctx) fieldAccesses(f *types.Var) (stores []*ssa.Store, loads []*ssa.UnOp) {
+	for _, fn := range c.P.RepoFns {
+		allInstrs(fn, func(in ssa.Instruction) {
+			fa, ok := in.(*ssa.FieldAddr)
+			if !ok || fieldVarOf(fa) != f {
+				return
+			}
+			for _, r := range referrers(fa) {
+				switch x := r.(type) {
+				case *ssa.Store:
+					if x.Addr == ssa.Value(fa) {
+						stores = append(stores, x)
+					}
+				case *ssa.UnOp:
+					if x.Op.String() == "*" {
+						loads = append(loads, x)
+					}
+				}
+			}
+		})
+	}
+	return
+}
+
+// strongFlagLoads: does some load of the flag guard a side on which every path fails?
+func (c *Ctx) strongFlagLoads(loads []*ssa.UnOp) bool {
+	for _, ld := range loads {
+		for _, br := range condBranches(ld) {
+			blk := br.iff.Block()
+			succ := 0
+			if br.neg {
+				succ = 1
+			}
+			target := blk.Succs[succ]
+			all, any := true, false
+			env := newEnvAt(blk)
+			env.enter(target, blk)
+			c.explore(target, 0, env, exploreCB{
+				ret: func(r *ssa.Return, e *pathEnv) {
+					any = true
+					if op := retErrOperand(r); op == nil || e.nilnessOf(op) != nonNil {
+						all = false
+					}
+				},
+				loud: func(in ssa.Instruction, e *pathEnv) { any = true },
+			})
+			if all && any {
+				return true
+			}
+		}
+	}
+	return false
 }
